@@ -1,11 +1,4 @@
-//@ include prelude/head.rs
-//@ include prelude/crypto.rs
-//@ include prelude/std_extra.rs
-use std::str::FromStr;
-use std::fmt::{Formatter, Result as FmtResult};
-//@ include prelude/chrono.rs
-//@ include prelude/fmt.rs
-//@ include spec/keys.rs
+//@ include prelude/common.rs
 //@ include contracts/crypto.rs
 //@ include contracts/keys.rs
 //@ include prelude/tail.rs
